@@ -504,6 +504,7 @@ fn add(self, rhs: Self) -> (r: Linear)
             forall|i: int, j: int| 0 <= i < j < r.terms.len() ==> r.terms[i].id < r.terms[j].id,
             linear_fin(self) && linear_fin(rhs) ==> linear_fin(r) && forall|m: Map<u64, F64>| #![trigger linear_val(r, m)] linear_val(r, m) == linear_val(self, m) + linear_val(rhs, m) - rem_add_linear_linear(self, rhs, m),
             linear_ids(r).subset_of(linear_ids(self).union(linear_ids(rhs))),''' % N,
+                renames=[(r'let mut (\w+) = BTreeMap::new\(\);', 'terms')],
                 rsubs=[(r'let mut terms = BTreeMap::new\(\);', 'let mut terms: BTreeMap<u64, F64> = BTreeMap::new();', 1),
                        (r'self\.terms\.iter\(\)\.chain\(rhs\.terms\.iter\(\)\)', 'chain_refs(&self.terms, &rhs.terms)', 1),
                        (r'(?s)terms\.into_iter\(\)\.map\(\|\(id, coefficient\)\| Term \{ id, coefficient \}\)\.collect\(\)', 'btree_into_terms(terms)', 1)],
@@ -545,6 +546,7 @@ pub fn new(terms: Vec<(u64, F64)>, constant: F64) -> (r: Linear)
                 && forall|m: Map<u64, F64>| #![trigger lin_all(r.terms@, m)] lin_all(r.terms@, m) == msum(acc(pairs_terms(terms@), terms.len() as int), m),
             // every id of the result is an id of the input (for all inputs)
             forall|j: int| 0 <= j < r.terms.len() ==> exists|i: int| 0 <= i < terms.len() && (#[trigger] terms[i]).0 == (#[trigger] r.terms[j]).id,''',
+                renames=[(r'let mut (\w+) = BTreeMap::new\(\);', 'merged')],
                 rsubs=[(r'let mut merged = BTreeMap::new\(\);', 'let mut merged: BTreeMap<u64, F64> = BTreeMap::new();', 1),
                        (r'(?s)merged\.into_iter\(\)\.map\(\|\(id, coefficient\)\| Term \{ id, coefficient \}\)\.collect\(\)', 'btree_into_terms(merged)', 1)],
                 loops=[dict(kind='for', it='it_1', rebind='(__e.0, __e.1)',
@@ -671,6 +673,7 @@ fn mul(self, rhs: Self) -> (r: Quadratic)
         // the quadratic part is EXACTLY the product of the two term lists (accumulated under canonical positions, nothing dropped); the linear part is
         // self * r + c * rhs - r * c, whose only inexact step is that one Linear + Linear: the remainder is DEFINED as the remainder of that addition
         ensures ''' + contract('mul', 'Linear', 'Linear', 'Quadratic'),
+                renames=[(r'let mut (\w+) = BTreeMap::new\(\);', 'terms')],
                 rsubs=[(r'let mut terms = BTreeMap::new\(\);', 'let mut terms: BTreeMap<(u64, u64), F64> = BTreeMap::new();', 1),
                        # R20c: the product is bound by a `let` in front of the statement that uses it
                        (r'\*terms\.entry\(\(row, col\)\)\.or_default\(\) \+= a\.coefficient \* b\.coefficient;',
@@ -757,6 +760,7 @@ pub fn from_iter(iter: Vec<((u64, u64), F64)>) -> (r: Quadratic)
             kfin(iter@) ==> vals_fin(r.values@) && forall|x: Map<u64, F64>| #![trigger quad_sum(r.rows@, r.columns@, r.values@, r.rows.len() as int, x)]
                 quad_sum(r.rows@, r.columns@, r.values@, r.rows.len() as int, x) == kseq_sum(iter@, iter.len() as int, qw2(x)),
             forall|j: int| 0 <= j < r.rows.len() ==> exists|i: int| 0 <= i < iter.len() && canon2((#[trigger] iter[i]).0) == (#[trigger] r.rows[j], r.columns[j]),''',
+                renames=[(r'let mut (\w+) = BTreeMap::new\(\);', 'terms')],
                 rsubs=[(r'let mut terms = BTreeMap::new\(\);', 'let mut terms: BTreeMap<(u64, u64), F64> = BTreeMap::new();', 1),
                        (r'let mut (columns|rows) = Vec::new\(\);', r'let mut \1: Vec<u64> = Vec::new();', 2),
                        (r'let mut values = Vec::new\(\);', 'let mut values: Vec<F64> = Vec::new();', 1),
@@ -952,7 +956,6 @@ def polynomial_add_polynomial():
     N = '(self.terms.len() + rhs.terms.len()) as int'
     FIN = 'poly_fin(self.terms@) && poly_fin(rhs.terms@)'
     final_proof = '''let ghost n = %s; let ghost its = pitems(ch); let ghost am = kacc(its, n, true, Map::empty());
-        let __t = vmap_into_monomials(terms);   // R20c
         proof {
             let pt = pitems(__t@);
             if %s {
@@ -987,7 +990,9 @@ fn add(self, rhs: Self) -> (r: Polynomial)
         ensures ''' + contract('add', 'Polynomial', 'Polynomial', 'Polynomial'),
                 rsubs=[(r'let mut terms = BTreeMap::new\(\);', 'let mut terms: VMap = VMap::new();', 1),      # R28
                        (r'self\.terms\.iter\(\)\.chain\(rhs\.terms\.iter\(\)\)', 'chain_refs(&self.terms, &rhs.terms)', 1),
-                       (r'(?s)terms\.into_iter\(\)\.map\(\|\(ids, coefficient\)\| Monomial \{ ids, coefficient \}\)\.collect\(\)', 'vmap_into_monomials(terms)', 1)],
+                       (r'(?s)terms\.into_iter\(\)\.map\(\|\(ids, coefficient\)\| Monomial \{ ids, coefficient \}\)\.collect\(\)', 'vmap_into_monomials(terms)', 1),
+                       (r'Self \{\s*terms: vmap_into_monomials\(terms\),?\s*\}', 'let __t = vmap_into_monomials(terms); Self { terms: __t }', None)],     # R20c
+                renames=[(r'let mut (\w+) = BTreeMap::new\(\);', 'terms'), (r'let (\w+) = terms\.into_iter\(\)\.map\(', '__t')],
                 loops=[dict(kind='for', it='it_1', rebind='*__e',
                             body_proof=' proof { assert(**__e == ch[it_1.index@ as int]); assert(pitems(ch)[it_1.index@ as int] == (term.ids@, term.coefficient)); }',
                             inv='''invariant
@@ -997,7 +1002,7 @@ fn add(self, rhs: Self) -> (r: Polynomial)
                 forall|k: Seq<u64>| #[trigger] terms@.contains_key(k) ==> exists|j: int| 0 <= j < it_1.index@ && (#[trigger] ch[j]).ids@ == k,''')],
                 proofs=[(('before', r'let __h1 = chain_refs'), 'let ghost ch = self.terms@ + rhs.terms@;\n        '),
                         (('before', r'Self \{\s*terms: __t'), final_proof)],
-                post_subs=[('terms: vmap_into_monomials(terms),', 'terms: __t,')])
+                post_subs=[])
 
 
 # ---------------------------------------------------------------- Polynomial * Polynomial: SortedIds, the term iterator of &Polynomial, the epsilon-dropping collect, the product loops
@@ -1079,7 +1084,6 @@ def polynomial_terms():
 
 def polynomial_from_iter():
     final_proof = '''let ghost n = iter.len() as int; let ghost am = kacc(its, n, true, Map::empty());
-        let __t = smap_into_monomials(terms);   // R20c
         proof {
             let pt = pitems(__t@);
             if kfin(its) {
@@ -1103,7 +1107,9 @@ pub fn from_iter(iter: Vec<(SortedIds, F64)>) -> (r: Polynomial)
             kfin(sitems(iter@)) ==> poly_fin(r.terms@) && forall|m: Map<u64, F64>| #![trigger polynomial_val(r, m)] polynomial_val(r, m) == ksum(kacc(sitems(iter@), iter.len() as int, true, Map::empty()), pw(m)),
             forall|j: int| 0 <= j < r.terms.len() ==> exists|i: int| 0 <= i < iter.len() && (#[trigger] iter[i]).0.0@ == (#[trigger] r.terms[j]).ids@,''',
                 rsubs=[(r'let mut terms = BTreeMap::new\(\);', 'let mut terms: SMap = SMap::new();', 1),      # R28
-                       (r'(?s)terms\.into_iter\(\)\.map\(\|\(ids, coefficient\)\| Monomial \{\s*ids: ids\.into_inner\(\),\s*coefficient,?\s*\}\)\.collect\(\)', 'smap_into_monomials(terms)', 1)],
+                       (r'(?s)terms\.into_iter\(\)\.map\(\|\(ids, coefficient\)\| Monomial \{\s*ids: ids\.into_inner\(\),\s*coefficient,?\s*\}\)\.collect\(\)', 'smap_into_monomials(terms)', 1),
+                       (r'Self \{\s*terms: smap_into_monomials\(terms\),?\s*\}', 'let __t = smap_into_monomials(terms); Self { terms: __t }', None)],     # R20c
+                renames=[(r'let mut (\w+) = BTreeMap::new\(\);', 'terms'), (r'let (\w+) = terms\.into_iter\(\)\.map\(', '__t')],
                 loops=[dict(kind='for', it='it_1', rebind='(__e.0.vclone(), __e.1)',
                             body_proof=' proof { assert(*__e == iter[it_1.index@ as int]); assert(its[it_1.index@ as int] == (ids.0@, coefficient)); }',
                             inv='''invariant
@@ -1111,8 +1117,9 @@ pub fn from_iter(iter: Vec<(SortedIds, F64)>) -> (r: Polynomial)
                 kfin(its) ==> kmatches(terms@, kacc(its, it_1.index@ as int, true, Map::empty())),
                 forall|k: Seq<u64>| #[trigger] terms@.contains_key(k) ==> exists|i: int| 0 <= i < it_1.index@ && (#[trigger] iter[i]).0.0@ == k,''')],
                 proofs=[(('before', r'let __h1 = iter;'), 'let ghost its = sitems(iter@);\n        '),
-                        (('before', r'Self \{\s*terms: __t'), 'let ghost tm = terms@;\n        ' + final_proof)],
-                post_subs=[('terms: smap_into_monomials(terms),', 'terms: __t,')])
+                        (('before', r'let __t = smap_into_monomials\(terms\);'), 'let ghost tm = terms@;\n        '),
+                        (('after', r'let __t = smap_into_monomials\(terms\);'), '\n        ' + final_proof)],
+                post_subs=[])
 
 
 def polynomial_mul_polynomial():
@@ -1151,9 +1158,10 @@ fn mul(self, rhs: Self) -> (r: Polynomial)
         // the two loops build the EXACT product of the two monomial lists under canonical (sorted) id lists - nothing is dropped there -; the final collect drops the entries with
         // |v| <= EPSILON, which is the remainder
         ensures ''' + contract('mul', 'Polynomial', 'Polynomial', 'Polynomial'),
+                renames=[(r'let mut (\w+) = BTreeMap::new\(\);', 'terms')],
                 rsubs=[(r'let mut terms = BTreeMap::new\(\);', 'let mut terms: SMap = SMap::new();', 1),      # R28
                        # R20c: the product is bound by a `let` in front of the statement that uses it
-                       (r'\*terms\.entry\(ids\)\.or_default\(\) \+= value_l \* value_r;', 'let __p = value_l * value_r; let ghost key = ids.0@; *terms.entry(ids).or_default() += __p;', 1),
+                       (r'\*terms\.entry\(ids\)\.or_default\(\) \+= ([^;]+);', r'let __p = \1; let ghost key = ids.0@; *terms.entry(ids).or_default() += __p;', 1),
                        (r'terms\.into_iter\(\)\.collect\(\)\s*\}\s*$', 'let __v = smap_into_vec(terms); let ghost lv = __v@; let __r = Polynomial::from_iter(__v); __r }', 1)],
                 loops=[dict(kind='for', it='it_1', rebind='(__e.0.vclone(), __e.1)',
                             body_proof=' proof { assert(*__e == la[it_1.index@ as int]); }',
@@ -1192,6 +1200,7 @@ fn mul(self, rhs: Self) -> (r: Polynomial)
                             assert(mono_ids(a[i].ids@, a[i].ids.len() as int).contains(k)); }
                     }
                     let c = rv(ai.coefficient) * rv(bj.coefficient); let g0 = gm;
+                    if poly_fin(self.terms@) && poly_fin(rhs.terms@) { assert(__p@ == XR::Fin(c)); }
                     gm = kbump(gm, key, c);
                     if %s {
                         assert forall|x: Map<u64, F64>| #![trigger ksum(gm, pw(x))] ksum(gm, pw(x)) ==
